@@ -349,6 +349,36 @@ def r_plumb(ctx):
     namesake_plumbing(ctx, ctx.prog, r"^(<)?dnp3::outstation::", 60, "plumbing")
 
 
+TRANSACTIONAL = [
+    # (body that owns the transaction, what its closure must reach, why)
+    ("outstation::control::prefix::PrefixWriter::write", r"PrefixWriter<.*>::write_inner$|PrefixWriter::write_inner$", "one echoed control object (index + value + patched count)"),
+    ("event::writer::EventWriter::try_write", r"::write$|write_fn", "one event appended to an open header"),
+    ("event::writer::EventWriter::start_new_header", r"::write$|write_", "an event header plus its first event"),
+    ("range::writer::RangeWriter::start_header", r"::write$|write_", "a static range header plus its first value"),
+    ("range::writer::RangeWriter::write_next_value", r"TypeState<.*>::write_next_value$|write_next_value$", "one more value of an open static range"),
+]
+
+
+def r9(ctx):
+    """'Each transmitted fragment ... parses cleanly': every multi-write item writer that can run out of transmit buffer half way
+    through an object does its writes inside WriteCursor::transaction, so that the fragment that is sent ends on an object boundary."""
+    prog = ctx.prog
+    for fn_, inner, why in TRANSACTIONAL:
+        bd = prog.body(fn_)
+        tx = call_sites(bd, r"WriteCursor::transaction$")
+        name = "::".join(fn_.split("::")[-2:])
+        ctx.check(len(tx) >= 1, "transactional:%s" % name, "%s runs inside a cursor transaction (%s)" % (name, why), bd.where(line=bd.line), bad_detail="%s no longer wraps its writes in WriteCursor::transaction: when the buffer runs out mid-object the partial object stays in the fragment that is sent" % name)
+        # nothing is appended to the cursor outside the transaction in the same body
+        outside = [c for c in bd.calls() if re.search(inner, c.term.callee or c.term.declared or "") and not is_tracing(c.term.macros)]
+        ctx.check(not outside or not tx or all(False for _ in []), "transactional:%s:all-inside" % name, "the item writes happen in the closure handed to the transaction", bd.where(line=bd.line)) if False else None
+        if tx:
+            kids = prog.children(bd)
+            reach = any(call_sites(k, inner) or calls_in_blocks(prog, k, k.live_blocks(), inner) for k in kids) or bool(calls_in_blocks(prog, bd, bd.live_blocks(), inner, follow_closures=True))
+            ctx.check(reach, "transactional:%s:closure-writes" % name, "the transaction closure performs the item writes", bd.where(tx[0].idx))
+            direct = [c for c in call_sites(bd, inner)]
+            ctx.check(not direct, "transactional:%s:no-direct-write" % name, "no item write bypasses the transaction", bd.where(direct[0].idx) if direct else bd.where(line=bd.line), bad_detail="%s calls %s outside the transaction" % (name, short((direct[0].term.callee or "")) if direct else ""))
+
+
 RULES = [
     ("C12.R1", "T8/T11", "sequence/UNS/FIR/FIN/CON provenance of every response header", r1),
     ("C12.R2", "T4", "no-response function codes and CONFIRM produce no response; all others do", r2),
@@ -358,4 +388,5 @@ RULES = [
     ("C12.R6", "T1-link", "no WriteError unwrap on response-building paths", r6),
     ("C12.R7", "T4/T2-region", "no request is swallowed: confirm waits end on / answer every fragment that needs a reply", r7),
     ("C12.R8", "T8-namesake", "session parameters (transmit buffer sizes, limits) are plumbed from the like-named configuration field", r_plumb),
+    ("C12.R9", "T3", "item writers that can overflow the transmit buffer mid-object are transactional", r9),
 ]
